@@ -42,7 +42,14 @@ MANIFEST = {
 LEAN_PROPS = ['AsyncsshModel.Props.C01']
 DRIVER = 'Drivers/C01.lean'
 TRUSTED = ['ideal authenticated encryption (ciphertext integrity) for every negotiated cipher/MAC pair']
-ASSUMPTIONS = ['fewer than 2^32 packets per key epoch', 'the attacker does not hold the session keys']
+ASSUMPTIONS = ['fewer than 2^32 packets per key epoch', 'the attacker does not hold the session keys',
+               'both ends start the key epoch with the same sequence number (the theorems\' `s0`): sequence numbers '
+               'count the cleartext packets of the first exchange too, so this holds against an attacker who injects '
+               'or removes cleartext packets only when both ends negotiated strict key exchange (CVE-2023-48795; '
+               'asyncssh offers and enforces it, a peer without it is outside the theorems)',
+               '"closed" in closed_is_final is the close the receive loop makes itself on an integrity or protocol '
+               'error (the exception leaves the loop); a close made from inside a handler (peer DISCONNECT, '
+               'application abort()) lets the loop finish the segment it is in: authentic packets only']
 
 EDITS = ['flip-length', 'flip-body', 'flip-padding', 'flip-tag', 'truncate', 'drop', 'duplicate', 'swap',
          'splice-old', 'splice-reverse', 'short-length-cut', 'short-length-full', 'splice-mirror']
